@@ -66,7 +66,8 @@ def TPulse.tau (p : TPulse) : Except String Int :=
 /-- a Python `dict` with string keys and values, as its item list (keys distinct) -/
 abbrev Dict := List (String × String)
 
-/-- `[mapping[identifier] for identifier in identifiers]`; `none` = `KeyError` -/
+/-- `[mapping[identifier] for identifier in identifiers]`; `none` = a key is missing (`KeyError`,
+which `_map_identifiers` turns into a `ValueError` since the repair F50) -/
 def applyDict (m : Dict) : List String → Option (List String)
   | [] => some []
   | s :: ss =>
@@ -86,8 +87,9 @@ def mapIdentifiers (ids : List String) : Option Dict → Except String (List Str
   | none => .ok (ids, List.range ids.length)
   -- else: np.array([mapping[identifier] for identifier in identifiers]); np.argsort(...)
   | some m =>
+    -- try: … except KeyError as err: raise ValueError('Identifier mapping has no entry …') from err
     match applyDict m ids with
-    | none => .error "KeyError"
+    | none => .error "ValueError"
     | some r => .ok (r, argsortIds r)
 
 /-- three parallel arrays zipped to terms (`zip` truncation never happens: equal lengths) -/
@@ -126,7 +128,7 @@ def TPulse.idsDup (p : TPulse) : Bool :=
 
 /-- `remap(pulse, order, d_per_qubit, oper_identifier_mapping)` up to the construction of the new
 pulse, once the two `tensor_transpose` calls have succeeded (their `ValueError`s:
-`Validate.remapChecks`).  Both `_map_identifiers` calls come first (`KeyError`), then the check
+`Validate.remapChecks`).  Both `_map_identifiers` calls come first (`ValueError` for a missing key), then the check
 that the mapped control, then the mapped noise identifiers are unique (`ValueError`; repair of the
 finding "identifiers that coincide after the mapping were accepted").
 `PulseSequence(c_opers=…, …)` is called with KEYWORD arguments only: `__init__` (l. 271) then sets
@@ -289,7 +291,8 @@ def placedTerms (ts : List Term) (pl : Placed) : Except String (List XTerm) :=
       (ts.map (·.coeffs)))
 
 /-- the loops over `multi_qubit_pulses`, then `single_qubit_pulses`; per pulse the control
-identifiers are mapped first, then the noise identifiers (order of the `KeyError`s) -/
+identifiers are mapped first, then the noise identifiers (a missing key: `ValueError`, raised here,
+i.e. before the duplicate check and before the additional noise Hamiltonian is looked at) -/
 def collectTerms : List Placed → Except String (List XTerm × List XTerm)
   | [] => .ok ([], [])
   | pl :: pls =>
@@ -448,9 +451,9 @@ Encodings of `Model/Pulse` (`ints`, `ham`, `pulse`; identifiers without blank `:
 * nats: `q0+q1+…`, `_` for none.
 
 Requests:
-* `mapids <ids joined by ,> <dict>` → `ok <ids>/<sort_idx>` | `err KeyError`
+* `mapids <ids joined by ,> <dict>` → `ok <ids>/<sort_idx>` | `err ValueError`
 * `remapdef <pulse> <tcache> <taucache> <dict>` → `ok <pulse> <tcache> <taucache> <t> <tau|IndexError>`
-  | `err KeyError` | `err ValueError`   (operator ids in the answer are those of the INPUT operators: `tr = id`)
+  | `err ValueError`   (operator ids in the answer are those of the INPUT operators: `tr = id`)
 * `extenddef <N|-> <additional raw ham|-> <addDimOk 0|1> <entry>…`, an entry being 7 tokens
   `<pulse> <tcache> <taucache> <dimOk 0|1> <qubits> <form b|t|l> <dict>` →
   `ok <xham>/<xham>/<dt>/<tcache>/<taucache>/<N>/<shortcut 0|1>/<t>/<tau>` | `err <Class>`,
